@@ -152,6 +152,8 @@ class VStr(V):
             return self.a
         if k == "rep" and self.a.kind in ("chr",):
             return self.a.a
+        if k == "rep" and self.a.kind == "lit" and len(self.a.a) == 1:
+            return z3.IntVal(ord(self.a.a))
         if k == "cat":
             # piecewise
             res = None
